@@ -29,11 +29,13 @@ def run(ctx):
     runs.append((args, res, trace))
     # parameter corners (a checker may write only on a non-default path); ruleguard with a real rule file
     rules = os.path.join(vlib.REPO, "checkers", "testdata", "_integration", "ruleguard", "rules.go")
-    for corner in ("min", "max"):
+    for corner in ("min", "min386", "max"):
         a = ["-corpus", corp, "-mode", "order", "-others", "0" if thorough else "3", "-oblig", "c03,c05",
-             "-params", "%s,ruleguard.rules=%s" % (corner, rules)]
-        if corner == "min":
-            a += ["-sizes", "386"]     # a context whose sizes differ from the host's: an overwritten SizesInfo becomes visible
+             "-params", "%s,ruleguard.rules=%s" % (corner.replace("386", ""), rules)]
+        if corner == "min386":
+            # a context whose sizes differ from the host's: a SizesInfo overwritten with the host's model becomes visible
+            # (and on the host's own sizes one overwritten with another model does)
+            a += ["-sizes", "386"]
         res_c, trace_c = lc.run_harness(ctx, "c05_" + corner, a, cwd=vlib.REPO)
         runs.append((a, res_c, trace_c))
     if thorough:
